@@ -294,6 +294,8 @@ func keysMatch(u *tls.UConn) int {
 	return 1
 }
 
+var errUnparsable = fmt.Errorf("the ClientHello on the wire does not parse")
+
 type nopConn struct{ net.Conn }
 
 func (nopConn) Write(b []byte) (int, error)      { return len(b), nil }
@@ -415,7 +417,7 @@ func (e *env) runCase(p parrot, w worldCfg, ops []op) (ob observation, err error
 		if msg := rec.firstHandshakeMsg(); msg != nil {
 			v := parseHello(msg)
 			if !v.ok {
-				return ob, fmt.Errorf("could not parse the ClientHello written by %s", p.name)
+				return ob, errUnparsable
 			}
 			ob.wire = &v
 		}
@@ -456,17 +458,21 @@ func (e *env) coqCase(p parrot, w worldCfg, ops []op, ob observation) string {
 
 // ---- Go-side oracle, from the property text and the doc comments only ----
 
-// legalPrefix returns the index of the first call the documentation forbids (-1 if none).
+// legalPrefix returns the index of the first call the documentation forbids (-1 if none); outs are the observed outcomes.
 // Forbidden: a setter while session support is off (no ClientSessionCache / tickets disabled);
 // a non-nil session extension after BuildHandshakeState or Handshake; a second injected session.
-func legalPrefix(w worldCfg, ops []op) int {
+func legalPrefix(w worldCfg, ops []op, outs []outcome) int {
 	cache, set, built := w.cache0, false, false
 	for i, o := range ops {
 		switch {
 		case o.k == kC:
 			cache = true
 		case o.k == kB || o.k == kH:
-			built = true
+			// a build that stopped with ErrEmptyPsk built no hello (the documented way out is to change the
+			// configuration); the documentation says nothing about setters after it
+			if !(i < len(outs) && outs[i].kind == 1 && outs[i].code == 4) {
+				built = true
+			}
 		case o.isSetter():
 			if !cache || w.disabled {
 				return i
@@ -488,7 +494,7 @@ func legalPrefix(w worldCfg, ops []op) int {
 func (e *env) oracle(c *vh.Ctx, p parrot, w worldCfg, ops []op, ob observation) {
 	input := map[string]any{"parrot": p.name, "ops": opsString(ops), "cache_in_config": w.cache0, "tickets_disabled": w.disabled,
 		"omit_empty_psk": w.omit, "cache_holds": w.hit, "server_tls13": w.srv13}
-	bad := legalPrefix(w, ops)
+	bad := legalPrefix(w, ops, ob.outs)
 	upto := len(ops)
 	if bad >= 0 {
 		upto = bad
@@ -665,6 +671,12 @@ func run(c *vh.Ctx) {
 	debug := os.Getenv("C20_DEBUG") != ""
 	do := func(kind string, p parrot, w worldCfg, ops []op) {
 		ob, err := e.runCase(p, w, ops)
+		if err == errUnparsable {
+			// the implementation wrote a malformed ClientHello: a failing input, not a harness problem
+			c.Fail(fmt.Sprintf("malformed-clienthello/%s/%s", p.name, opsString(ops)), "the ClientHello written for this history does not parse (length fields inconsistent)",
+				map[string]any{"parrot": p.name, "ops": opsString(ops), "config": fmt.Sprintf("%+v", w)}, "unparsable", "well-formed ClientHello")
+			return
+		}
 		if err != nil {
 			fmt.Println("C20: harness error:", err, p.name, opsString(ops))
 			os.Exit(1)
